@@ -136,6 +136,10 @@ type fault struct {
 	msg   string        // the message errors.go assigns to the violated clause
 	label string        // e.g. "lda=2", "len(x)=4", "tA=0"
 	first bool          // member of the pair menu (one value per argument)
+	// optional marks a don't-care clause: the documentation does not say whether
+	// the value is rejected, so a normal return is accepted as well as the panic
+	// (which, if it happens, must carry msg and precede every write).
+	optional bool
 }
 
 var dimMsg = map[string]string{"m": "blas: m < 0", "n": "blas: n < 0", "k": "blas: k < 0", "kl": "blas: kL < 0", "ku": "blas: kU < 0"}
@@ -324,10 +328,11 @@ func (bm *blasMethod) faults(c *Call, nd []int, regs []*region) []fault {
 			}
 			add(fault{kind: fkDim, pos: i, val: reflect.ValueOf(-1), op: -1, msg: dimMsg[tok], label: tok + "=-1", first: true})
 		case "P":
-			if nonEmpty(c) { // the flag is only examined for n > 0 (don't-care for n == 0)
-				add(fault{kind: fkRotm, pos: i, val: rotmValue(2, bm.mt.In(i)), op: -1, msg: "blas: illegal rotm flag", label: "P.Flag=2", first: true})
-				add(fault{kind: fkRotm, pos: i, val: rotmValue(-3, bm.mt.In(i)), op: -1, msg: "blas: illegal rotm flag", label: "P.Flag=-3"})
-			}
+			// Don't-care: errors.go has "illegal rotm flag", but neither the doc comment of
+			// ?rotm nor the reference BLAS says that a flag outside {-2,-1,0,1} is rejected
+			// (gonum: silent no-op). Either the panic (before any write) or a return.
+			add(fault{kind: fkRotm, pos: i, val: rotmValue(2, bm.mt.In(i)), op: -1, msg: "blas: illegal rotm flag", label: "P.Flag=2", first: true, optional: true})
+			add(fault{kind: fkRotm, pos: i, val: rotmValue(-3, bm.mt.In(i)), op: -1, msg: "blas: illegal rotm flag", label: "P.Flag=-3", optional: true})
 		default:
 			if len(tok) > 2 && tok[:2] == "ld" {
 				k := r.Op(tok[2:])
@@ -358,6 +363,7 @@ type blasStats struct {
 	valid, guard, single, pair int64
 	kinds                      [6]bool
 	pairFirst, pairSecond      int64
+	optionalQuiet              int64
 }
 
 type failer interface {
@@ -447,6 +453,11 @@ func (bm *blasMethod) runBase(t failer, c *Call, regs []*region, pairs bool, st 
 		o := classify(e, isBlasMsg)
 		what := fmt.Sprintf("%s [single fault %s, valid otherwise]", bm.describe(in), f.label)
 		switch {
+		case o.class == pcNone && f.optional:
+			st.optionalQuiet++
+			for k := range r.Ops {
+				regs[k].restore()
+			}
 		case o.class == pcNone:
 			t.FailClass("invalid-accepted", "%s: returned normally, want panic %q", what, f.msg)
 		case o.class == pcFault:
@@ -489,6 +500,10 @@ func (bm *blasMethod) runBase(t failer, c *Call, regs []*region, pairs bool, st 
 			o := classify(e, isBlasMsg)
 			what := fmt.Sprintf("%s [double fault %s, %s]", bm.describe(in), f.label, g.label)
 			switch {
+			case o.class == pcNone && f.optional && g.optional:
+				for k := range r.Ops {
+					regs[k].restore()
+				}
 			case o.class == pcNone:
 				t.FailClass("invalid-accepted", "%s: returned normally, want a package panic", what)
 			case o.class == pcFault:
